@@ -61,6 +61,7 @@ struct ZSTD_seekable_CStream_s {
     U32 maxFrameSize;
 
     int writingSeekTable;
+    int endingFrame;    /* ZSTD_seekable_endFrame() has ended the current frame but could not flush all of it yet */
 };
 
 static size_t ZSTD_seekable_frameLog_allocVec(ZSTD_frameLog* fl)
@@ -160,6 +161,7 @@ size_t ZSTD_seekable_initCStream(ZSTD_seekable_CStream* zcs,
     zcs->framelog.seekTablePos = 0;
     zcs->framelog.seekTableIndex = 0;
     zcs->writingSeekTable = 0;
+    zcs->endingFrame = 0;
 
     return ZSTD_initCStream(zcs->cstream, compressionLevel);
 }
@@ -202,7 +204,9 @@ size_t ZSTD_seekable_endFrame(ZSTD_seekable_CStream* zcs, ZSTD_outBuffer* output
 
     zcs->frameCSize += (U32)(output->pos - prevOutPos);
 
-    /* need to flush before doing the rest */
+    /* need to flush before doing the rest :
+     * until then the frame is not logged, and ZSTD_seekable_compressStream() accepts no input */
+    zcs->endingFrame = (ret != 0);
     if (ret) return ret;
 
     /* frame done */
@@ -231,6 +235,12 @@ size_t ZSTD_seekable_compressStream(ZSTD_seekable_CStream* zcs, ZSTD_outBuffer* 
     size_t inLen = input->size - input->pos;
 
     assert(zcs->maxFrameSize < INT_MAX);
+    if (zcs->endingFrame) {
+        /* the end of the current frame was requested and is not entirely flushed :
+         * input given now would go into a second zstd frame under the same seek table entry */
+        size_t const ret = ZSTD_seekable_endFrame(zcs, output);
+        if (ret) return ret;   /* error, or still something to flush : nothing is consumed */
+    }
     ZSTD_CCtx_setParameter(zcs->cstream, ZSTD_c_srcSizeHint, (int)zcs->maxFrameSize);
     inLen = MIN(inLen, (size_t)(zcs->maxFrameSize - zcs->frameDSize));
 
